@@ -134,13 +134,26 @@ func (gc *gc) stop() {
 // Does nothing if shard is in "read-only" mode.
 func (s *Shard) removeGarbage() {
 	s.m.RLock()
+	if s.info.Mode != mode.ReadWrite {
+		s.m.RUnlock()
+		return
+	}
+	expiredObjects := s.collectExpiredObjects()
+	s.m.RUnlock()
+
+	// The callback comes back to this shard through the engine, so it must
+	// not run under the shard's read lock: a mode change waiting for the
+	// write lock would block the nested read lock forever.
+	if len(expiredObjects) > 0 && s.expiredObjectsCallback != nil {
+		s.expiredObjectsCallback(expiredObjects)
+	}
+
+	s.m.RLock()
 	defer s.m.RUnlock()
 
 	if s.info.Mode != mode.ReadWrite {
 		return
 	}
-
-	s.collectExpiredObjects()
 
 	bins, err := s.metaBase.GetGarbage(s.rmBatchSize)
 	if err != nil {
@@ -171,11 +184,13 @@ func (s *Shard) removeGarbage() {
 	}
 }
 
-func (s *Shard) collectExpiredObjects() {
+// collectExpiredObjects removes expired tombstones and returns other expired
+// objects to be reported to the expired objects callback.
+func (s *Shard) collectExpiredObjects() []oid.Address {
 	epoch := s.gc.currentEpoch.Load()
 	doneUpTo := s.gc.processedEpoch.Load()
 	if s.info.Mode.NoMetabase() || doneUpTo == epoch {
-		return
+		return nil
 	}
 	if doneUpTo > epoch {
 		s.log.Warn("current epoch is less than the last processed epoch in GC",
@@ -183,7 +198,7 @@ func (s *Shard) collectExpiredObjects() {
 			zap.Uint64("processed", doneUpTo),
 		)
 		s.gc.processedEpoch.Store(epoch)
-		return
+		return nil
 	}
 
 	var (
@@ -229,10 +244,7 @@ func (s *Shard) collectExpiredObjects() {
 		}
 	}
 	log.Debug("collected expired objects", zap.Int("num", len(expiredObjects)))
-	if len(expiredObjects) > 0 && s.expiredObjectsCallback != nil {
-		s.expiredObjectsCallback(expiredObjects)
-	}
-	log.Debug("finished expired objects handling")
+	return expiredObjects
 }
 
 // NotificationChannel returns channel for shard events.
